@@ -203,6 +203,47 @@ def run_stop(case):
     return ok(any(e < total for e in p.get('stops', [])), tags)
 
 
+def run_override(case):
+    """a user leaf that prepares its outputs twice in one edge (default, then override): the last prepared value is the one
+    that becomes visible, also when it equals the value the wire already holds"""
+    import io
+    import contextlib
+    from .c06 import DefaultThenOverride
+    tags = ['design:override']
+    p = case['params']
+    wa, wr, mode = p['wa'], p['wr'], p['mode']
+    sysm = py4hw.HWSystem()
+    a, b_, en = sysm.wire('a', wa), sysm.wire('b', wa), sysm.wire('en')
+    r, pw = sysm.wire('r', wr), sysm.wire('p', wr)
+    DefaultThenOverride(sysm, 'dut', a, b_, en, r, pw, mode)
+    q = sysm.wire('q', wr)
+    py4hw.Reg(sysm, 'follow', r, q)
+    sim = sysm.getSimulator()
+    m = (1 << wr) - 1
+    prev_r = 0
+    nt = False
+    for t, (vec, n) in enumerate(case['schedule']):
+        va, vb, ve = vec
+        a.put(va)
+        b_.put(vb)
+        en.put(ve)
+        for _ in range(n):
+            with contextlib.redirect_stdout(io.StringIO()):
+                sim.clk(1)
+            exp_r, exp_p = 0, (va * vb) & m
+            if ve:
+                exp_r = {'diff': va - vb, 'neg': -va - 1}.get(mode, (va << 3) + vb) & m
+                if mode != 'diff':
+                    exp_p = (vb - va * 3) & m
+            if r.get() != exp_r or pw.get() != exp_p or q.get() != prev_r:
+                return fail('last_prepared_value_lost', 'step {} (a={} b={} en={} mode {}): r={} p={} q={} expected r={} p={} q={}'.format(
+                    t, va, vb, ve, mode, r.get(), pw.get(), q.get(), exp_r, exp_p, prev_r), cls=tags)
+            if exp_r == prev_r and ve:
+                nt = True          # the overriding value equals the value the wire already holds
+            prev_r = exp_r
+    return ok(nt, tags)
+
+
 DESIGNS = {'uart': d_uart, 'axi': d_axi, 'mem': d_mem, 'chain': d_chain, 'fsm': d_fsm}
 
 
@@ -282,6 +323,8 @@ def cone_pairs(desc):
 def run_case(case):
     if case.get('design') == 'stop':
         return run_stop(case)
+    if case.get('design') == 'override':
+        return run_override(case)
     perms = [{'reverse': False, 'seed': None}] + [{'reverse': True}] + [{'seed': s} for s in case.get('perm_seeds', [])]
     schedule = [(v, n) for v, n in case['schedule']]
     tags = []
@@ -398,7 +441,13 @@ def netlist_cases(draw, max_nodes):
 
 @st.composite
 def design_cases(draw):
-    name = draw(st.sampled_from(['uart', 'axi', 'mem', 'chain', 'chain', 'mem', 'fsm', 'fsm', 'stop']))
+    name = draw(st.sampled_from(['uart', 'axi', 'mem', 'chain', 'chain', 'mem', 'fsm', 'fsm', 'stop', 'override']))
+    if name == 'override':
+        wa = draw(st.sampled_from([1, 2, 4]))
+        steps = [[[draw(st.integers(0, (1 << wa) - 1)), draw(st.integers(0, (1 << wa) - 1)), draw(st.integers(0, 1))], draw(st.integers(1, 3))]
+                 for _ in range(draw(st.integers(2, 8)))]
+        return {'kind': 'design', 'design': 'override', 'schedule': steps, 'perm_seeds': [],
+                'params': {'wa': wa, 'wr': draw(st.sampled_from([1, 3, 4])), 'mode': draw(st.sampled_from(['diff', 'neg', 'wide']))}}
     if name == 'stop':
         steps = [[[draw(st.integers(0, 15))], draw(st.integers(1, 6))] for _ in range(draw(st.integers(2, 6)))]
         total = sum(n for _, n in steps)
